@@ -5,7 +5,7 @@
 use peginator::{
     parse_Whitespace, parse_char, parse_character_literal, parse_character_literal_insensitive,
     parse_character_range, parse_end_of_input, parse_string_literal, parse_string_literal_insensitive,
-    CacheEntries, ChoiceHelper, ParseError, ParseErrorSpecifics, ParseOk, ParseResult, ParseSettings, ParseState,
+    CacheEntries, ChoiceHelper, IndentedTracer, ParseError, ParseTracer, ParseErrorSpecifics, ParseOk, ParseResult, ParseSettings, ParseState,
 };
 
 /// source of nondeterminism: kani::any() under Kani, recorded bytes natively
@@ -354,7 +354,24 @@ pub fn check_cache_map(case: &Case) -> R {
     Ok(())
 }
 
+/// IndentedTracer: any properly nested sequence of entries and exits, however deep, runs without a panic
+/// (native only: it prints to stderr). Depth = case.k1.
+pub fn check_tracer_nesting(case: &Case) -> R {
+    setup!(case, input, st);
+    let depth = case.k1;
+    let mut t = IndentedTracer::new();
+    let ok: ParseResult<()> = Ok(ParseOk { result: (), state: st.clone() });
+    let err: ParseResult<()> = Err(ParseError { position: 0, specifics: ParseErrorSpecifics::ExpectedEoi });
+    for i in 0..depth { t.print_trace_start(&st, "Rule"); if i % 3 == 0 { t.print_informative("Cache hit"); } }
+    for i in 0..depth { t.print_trace_result(if i % 2 == 0 { &ok } else { &err }); }
+    // a second round from the outermost level: the level must be back where it started
+    t.print_trace_start(&st, "Rule");
+    t.print_trace_result(&ok);
+    Ok(())
+}
+
 pub const CHECKS: &[(&str, fn(&Case) -> R)] = &[
+    ("IndentedTracer", check_tracer_nesting),
     ("ParseState::first_n_chars", check_first_n_chars),
     ("CacheEntries", check_cache_map),
     ("parse_char", check_parse_char),
